@@ -176,6 +176,16 @@ func init() {
 			}
 			return tuple{[]value(nil), fr.i.newErr("crypto/rsa: decryption error", nil)}
 		},
+		"crypto/x509.MarshalPKCS1PublicKey": func(fr *frame, a []value) value {
+			return toByteValues(fmt.Sprintf("pub:%d", keyIDOfPub(a[0])))
+		},
+		// the engine runs one goroutine: locks are no-ops
+		"(*sync.Mutex).Lock":      func(fr *frame, a []value) value { return nil },
+		"(*sync.Mutex).Unlock":    func(fr *frame, a []value) value { return nil },
+		"(*sync.RWMutex).Lock":    func(fr *frame, a []value) value { return nil },
+		"(*sync.RWMutex).Unlock":  func(fr *frame, a []value) value { return nil },
+		"(*sync.RWMutex).RLock":   func(fr *frame, a []value) value { return nil },
+		"(*sync.RWMutex).RUnlock": func(fr *frame, a []value) value { return nil },
 		"crypto/x509.ParsePKCS1PublicKey": func(fr *frame, a []value) value {
 			s := bytesOf(a[0])
 			var id int
